@@ -197,31 +197,45 @@ pub fn suite_pair(rng: &mut Rng, cases: u64, t: &mut Trace) {
             else { script.push(Act::Tick); }
         }
         let mut logs: Vec<Vec<String>> = Vec::new();
-        for flavour in 0..2u64 {
-            cfg.is_async = flavour == 1;
-            t.case(id * 2 + flavour, p.name);
-            let flags = crate::monitors::Flags { exact_map: false, collisions: false, quiescent_profile: true };
-            let mut case = match Case::new(sched.clone(), cfg.clone(), 1, id * 2 + flavour, flags) {
-                Ok(c) => c,
-                Err(e) => { t.step(&format!("cnew-failed {}", e)); logs.push(vec![format!("cnew-failed {}", e)]); continue; }
-            };
-            t.step(&cnew_line(&cfg, case.item_size));
-            t.obs("ok");
-            t.snap(&crate::cachesuite::str_snap(&crate::cachesuite::snapshot(&case.ck)));
-            let mut srng = Rng::new(id * 7919 + 13);
-            for a in &script {
-                if case.hung { break; }
-                match a {
-                    Act::Op(op) => { case.start_op(t, 0, op.clone()); case.settle(t, &mut srng); }
-                    Act::Advance(dt) => case.advance(t, *dt),
-                    Act::Tick => { case.tick(t); case.settle(t, &mut srng); }
+        for attempt in 0..2u64 {
+            logs.clear();
+            let mut stalled = false;
+            for flavour in 0..2u64 {
+                cfg.is_async = flavour == 1;
+                let cid = id * 2 + flavour + attempt * 1_000_000;
+                t.case(cid, p.name);
+                let flags = crate::monitors::Flags { exact_map: false, collisions: false, quiescent_profile: true };
+                let mut case = match Case::new(sched.clone(), cfg.clone(), 1, cid, flags) {
+                    Ok(c) => c,
+                    Err(e) => { t.step(&format!("cnew-failed {}", e)); logs.push(vec![format!("cnew-failed {}", e)]); continue; }
+                };
+                t.step(&cnew_line(&cfg, case.item_size));
+                t.obs("ok");
+                t.snap(&crate::cachesuite::str_snap(&crate::cachesuite::snapshot(&case.ck)));
+                let mut srng = Rng::new(id * 7919 + 13);
+                for a in &script {
+                    if case.hung { break; }
+                    match a {
+                        Act::Op(op) => { case.start_op(t, 0, op.clone()); case.settle(t, &mut srng); }
+                        Act::Advance(dt) => case.advance(t, *dt),
+                        Act::Tick => { case.tick(t); case.settle(t, &mut srng); }
+                    }
                 }
+                t.mark_nontrivial();
+                if case.hung && attempt == 0 {
+                    // a stall of the machine does not repeat, a genuine hang does: run the pair again
+                    case.abandon();
+                    stalled = true;
+                    break;
+                }
+                let pl = case.pair_log.clone();
+                case.finish(t, &mut srng);
+                let v = pl.lock().unwrap().clone();
+                logs.push(v);
             }
-            t.mark_nontrivial();
-            let pl = case.pair_log.clone();
-            case.finish(t, &mut srng);
-            let v = pl.lock().unwrap().clone();
-            logs.push(v);
+            if !stalled {
+                break;
+            }
         }
         if logs.len() == 2 && logs[0] != logs[1] {
             let n = logs[0].len().min(logs[1].len());
@@ -242,8 +256,19 @@ pub fn suite_cache(rng: &mut Rng, cases: u64, t: &mut Trace, pname: &str) {
     let p = profile(pname);
     let sched = Sched::new();
     stretto::verif::install(Some(sched.clone()));
-    for id in 0..cases {
-        t.case(id, p.name);
+    let mut stalls = 0u64;
+    let mut id = 0u64;
+    let mut attempt = 0u32;
+    let mut rng_at_case = rng.clone();
+    while id < cases {
+        // a case whose actor did not arrive in time is run once more from the same PRNG state: a stall
+        // of the machine does not repeat, a genuine hang does
+        if attempt == 0 {
+            rng_at_case = rng.clone();
+        } else {
+            *rng = rng_at_case.clone();
+        }
+        t.case(if attempt == 0 { id } else { id + 1_000_000 }, p.name);
         let cfg = gen_config(rng, &p);
         let flags = crate::monitors::Flags {
             exact_map: p.name == "cacheq" || p.name == "cacheqb",
@@ -254,6 +279,8 @@ pub fn suite_cache(rng: &mut Rng, cases: u64, t: &mut Trace, pname: &str) {
             Ok(c) => c,
             Err(e) => {
                 t.step(&format!("cnew-failed {}", e));
+                attempt = 0;
+                id += 1;
                 continue;
             }
         };
@@ -301,7 +328,19 @@ pub fn suite_cache(rng: &mut Rng, cases: u64, t: &mut Trace, pname: &str) {
             }
         }
         t.mark_nontrivial();
+        if case.hung && attempt == 0 {
+            case.mon.discard();
+            case.abandon();
+            stalls += 1;
+            attempt = 1;
+            continue;
+        }
         case.finish(t, rng);
+        attempt = 0;
+        id += 1;
+    }
+    if stalls > 0 {
+        eprintln!("note: {} case(s) stalled (an actor did not arrive in time) and were run again", stalls);
     }
     stretto::verif::install(None);
 }
